@@ -373,6 +373,8 @@ def short_sequences(maxlen=14):
     length k is one fixed texture per k (length 4 is b"0000": looks like a flush)."""
     pay = {0: b"", 1: b"a", 2: b"0\n", 3: b"abc", 4: b"0000", 5: b"0005a", 6: b"fedcba", 7: b"0006a\n1",
            8: b"00000004", 9: b"123456789", 10: b"0123456789"}
+    for k in range(11, maxlen - 3):
+        pay[k] = R.fill(k, "pkt", k)
     atoms = [(4, ("F",)), (4, ("D",)), (4, ("B", b""))] + [(4 + k, ("B", pay[k])) for k in range(1, maxlen - 3)]
     out = []
 
